@@ -156,7 +156,7 @@ fn eval(name: &str, a: &[Value]) -> Value {
         "validate" => {
             use scrut::output::ExitStatus;
             let w = &a[0];
-            let mut config = scrut::config::TestCaseConfig::empty();
+            let mut config = if w["config"].is_object() { crate::cfg::tcc_from(&w["config"]) } else { scrut::config::TestCaseConfig::empty() };
             config.output_stream = match w["output_stream"].as_str() {
                 Some("Stdout") => Some(scrut::config::OutputStreamControl::Stdout),
                 Some("Stderr") => Some(scrut::config::OutputStreamControl::Stderr),
@@ -218,10 +218,15 @@ fn eval(name: &str, a: &[Value]) -> Value {
             let maker = std::sync::Arc::new(scrut::expectation::ExpectationMaker::new(scrut::rules::registry::RuleRegistry::default()));
             let parser = scrut::parsers::markdown::MarkdownParser::new(maker, &langs, None);
             let tests = match parser.parse(&text) { Ok((_c, t)) => t, Err(e) => return json!({"parse_error": format!("{:#}", e)}) };
-            let outcomes: Vec<scrut::outcome::Outcome> = tests.iter().map(|t| scrut::outcome::Outcome {
-                location: None,
-                output: scrut::output::Output { stdout: vec![].into(), stderr: vec![].into(), exit_code: scrut::output::ExitStatus::Code(t.exit_code.unwrap_or(0)) },
-                testcase: t.clone(), format: scrut::parsers::parser::ParserType::Markdown, escaping: scrut::escaping::Escaper::Unicode, result: Ok(()),
+            // optional 3rd argument: indices of tests that now print the single line `zz` instead (validated for real: the diff is DiffTool's)
+            let fails: Vec<usize> = a.get(2).and_then(|v| v.as_array()).map(|v| v.iter().filter_map(|x| x.as_u64().map(|n| n as usize)).collect()).unwrap_or_default();
+            let outcomes: Vec<scrut::outcome::Outcome> = tests.iter().enumerate().map(|(i, t)| {
+                let failing = fails.contains(&i);
+                let output = scrut::output::Output { stdout: (if failing { b"zz\n".to_vec() } else { vec![] }).into(), stderr: vec![].into(),
+                    exit_code: scrut::output::ExitStatus::Code(t.exit_code.unwrap_or(0)) };
+                let result = if failing { t.validate(&output) } else { Ok(()) };
+                scrut::outcome::Outcome { location: None, output, testcase: t.clone(), format: scrut::parsers::parser::ParserType::Markdown,
+                    escaping: scrut::escaping::Escaper::Unicode, result }
             }).collect();
             let refs: Vec<&scrut::outcome::Outcome> = outcomes.iter().collect();
             match scrut::generators::markdown::MarkdownUpdateGenerator::new(&langs).generate_update(&text, &refs) {
